@@ -148,7 +148,7 @@ def check_perm_split(idx):
         # the category a merchant is filed under (views and the HTML category view attribute the merchant's whole total to it)
         gc = {k: (v['category'], v['subcategory']) for k, v in analyze_transactions(copy_txns(perm))['by_merchant'].items()}
         if gc != base_cat:
-            O.fail('C06.merchant_category_is_last_transaction_wins', {'fn': 'analyze_transactions', 'pool_indices': list(idx), 'permuted': list(perm)}, base_cat, gc,
+            O.fail('C06.merchant_category_depends_on_transaction_order', {'fn': 'analyze_transactions', 'pool_indices': list(idx), 'permuted': list(perm)}, base_cat, gc,
                    "analyze_transactions(txns)['by_merchant'][m]['category'] for two orders of the same transactions")
     flow = ['income_total', 'investment_total', 'transfers_in', 'transfers_out', 'spending_total', 'credits_total', 'count', 'total_transactions']
     for cut in range(1, len(idx)):
